@@ -38,7 +38,7 @@ func String(str string, t reflect.Type) (reflect.Value, error) {
 			if parseErr != nil {
 				return reflect.Value{}, fmt.Errorf("parse error of item %d %q: %s", idx, strVal, parseErr)
 			}
-			castSlice = reflect.Append(castSlice, castVal.Elem())
+			castSlice = reflect.Append(castSlice, elemOf(castVal, t.Elem()))
 		}
 		return castSlice, nil
 
@@ -73,6 +73,20 @@ func String(str string, t reflect.Type) (reflect.Value, error) {
 		// If the type of the original StructField is unsupported, return an error.
 		return reflect.Value{}, fmt.Errorf("value %q cannot be translated to kind %q", str, t.Kind())
 	}
+}
+
+// elemOf unwraps the value String produced for an element, key or map value
+// (a pointer for scalars, the value itself for slices and maps) and converts
+// it to the element type asked for, which may be a user-defined named type
+// (String goes by kind and hands back the unnamed equivalent).
+func elemOf(v reflect.Value, t reflect.Type) reflect.Value {
+	if v.Kind() == reflect.Ptr {
+		v = v.Elem()
+	}
+	if v.Type() != t && v.Type().ConvertibleTo(t) {
+		v = v.Convert(t)
+	}
+	return v
 }
 
 func checkKindsSupported(kinds ...reflect.Kind) error {
